@@ -69,6 +69,51 @@ func runCleanup(c *core.Ctx) {
 				}
 			}
 		})
+		// replacing the whole entries map drops every entry it holds: allowed only on a freshly allocated
+		// cache (constructor) or on the ‘map is empty’ edge
+		an.Instrs(fn, func(in ssa.Instruction) {
+			st, ok := in.(*ssa.Store)
+			if !ok {
+				return
+			}
+			fa, ok := st.Addr.(*ssa.FieldAddr)
+			if !ok || !isEntries(fa) {
+				return
+			}
+			if _, p := accessPath(fa); len(p) != 1 {
+				return
+			}
+			name := c.P.FuncName(fn)
+			if fn.Origin() != nil {
+				name = c.P.FuncName(fn.Origin())
+			}
+			key := "replace-map:" + kn(name)
+			v := res[key]
+			if v == nil {
+				v = &verdict{pos: st.Pos()}
+				res[key] = v
+			}
+			v.n++
+			if _, fresh := an.Origin(fa.X).(*ssa.Alloc); fresh {
+				return
+			}
+			emptyEdge := false
+			for _, g := range an.GuardingEdges(st.Block()) {
+				x, y, op, ok := an.CmpTest(g.If())
+				if !ok {
+					continue
+				}
+				lx := lenOf(x)
+				if n, isC := an.ConstInt(y); lx != nil && isEntries(lx) && isC && n == 0 {
+					if (op == token.EQL && g.Succ == 0) || (op == token.NEQ && g.Succ == 1) || (op == token.GTR && g.Succ == 1) {
+						emptyEdge = true
+					}
+				}
+			}
+			if !emptyEdge {
+				v.bad = fmt.Sprintf("%s replaces the entries map at %s although it may still hold entries (for instance ones added while the lock was released around a callback): they disappear without their cleanup", name, c.P.Pos(st.Pos()))
+			}
+		})
 		for i, d := range removals {
 			name := c.P.FuncName(fn)
 			if fn.Origin() != nil {
@@ -157,6 +202,8 @@ func runCleanup(c *core.Ctx) {
 		v := res[k]
 		if v.bad != "" {
 			c.Fail(k, v.pos, "%s: an entry would be dropped without (successful) cleanup — for upload sessions the temporary file and for repositories the pending collection are lost", v.bad)
+		} else if strings.HasPrefix(k, "replace-map:") {
+			c.Pass(k, v.pos, "the entries map is assigned only on a freshly allocated cache or on the ‘map is empty’ edge (%d instantiation(s))", v.n)
 		} else {
 			c.Pass(k, v.pos, "callback nil, entry absent, or callback(key) returned nil on every path (%d instantiation(s))", v.n)
 		}
@@ -914,4 +961,148 @@ func baseGlobal(v ssa.Value) *ssa.Global {
 		}
 	}
 	return nil
+}
+
+func init() {
+	register(&Rule{ID: "TS-TIMER", Floor: 2,
+		Doc: "the cache arms its expiry timer only when its timer field is nil (premise, checked); hence ‘field non-nil ⇒ timer pending’ must be kept: after every Stop() of that timer the field is set to nil (or the timer re-armed) on all paths before the function returns — a stopped timer left in the field is never re-armed and nothing in the cache expires again",
+		Run: func(c *core.Ctx) {
+			isTimerField := func(addr ssa.Value) bool {
+				fa, ok := addr.(*ssa.FieldAddr)
+				if !ok {
+					return false
+				}
+				pt, ok := an.Deref(fa.Type()).(*types.Pointer)
+				if !ok {
+					return false
+				}
+				n := an.NamedOf(pt.Elem())
+				return n != nil && n.Obj().Pkg() != nil && n.Obj().Pkg().Path() == "time" && n.Obj().Name() == "Timer"
+			}
+			timerFromField := func(v ssa.Value) bool {
+				ld, ok := an.Strip(v).(*ssa.UnOp)
+				return ok && ld.Op == token.MUL && isTimerField(ld.X)
+			}
+			// premise: an arming store guarded by the field's nil edge
+			premise := false
+			type verdict struct {
+				bad string
+				pos token.Pos
+			}
+			res := map[string]*verdict{}
+			for _, fn := range c.P.Funcs("internal/cache") {
+				if fn.TypeParams().Len() > 0 && len(fn.TypeArgs()) == 0 {
+					continue
+				}
+				name := c.P.FuncName(fn)
+				if fn.Origin() != nil {
+					name = c.P.FuncName(fn.Origin())
+				}
+				an.Instrs(fn, func(in ssa.Instruction) {
+					st, ok := in.(*ssa.Store)
+					if !ok || !isTimerField(st.Addr) {
+						return
+					}
+					call, ok := an.Strip(st.Val).(*ssa.Call)
+					if !ok || !an.IsFunc(call, "time", "AfterFunc") {
+						return
+					}
+					for _, g := range an.GuardingEdges(st.Block()) {
+						if x, nilSucc, ok := an.NilTest(g.If()); ok && timerFromField(x) && g.Succ == nilSucc {
+							premise = true
+						}
+					}
+				})
+				nStop := 0
+				an.Calls(fn, func(call ssa.CallInstruction) {
+					if an.IsMethod(call, "time", "Timer", "Stop") {
+						if recv, _ := an.CallArgs(call); timerFromField(recv) {
+							nStop++
+						}
+					}
+				})
+				if nStop == 0 {
+					continue
+				}
+				bad := ""
+				// loads of the field are numbered; a load is valid until the next store to the field: stopping a
+				// timer read through a valid load leaves a stopped timer in the field
+				loadNo := map[ssa.Value]uint{}
+				an.Instrs(fn, func(in ssa.Instruction) {
+					if u, ok := in.(*ssa.UnOp); ok && u.Op == token.MUL && isTimerField(u.X) && len(loadNo) < 30 {
+						loadNo[u] = uint(len(loadNo))
+					}
+				})
+				type tst struct {
+					valid uint32
+					bad   bool
+				}
+				recvLoad := func(call ssa.CallInstruction) (uint, bool) {
+					recv, _ := an.CallArgs(call)
+					n, ok := loadNo[an.Strip(recv)]
+					if !ok {
+						n, ok = loadNo[an.Origin(recv)]
+					}
+					return n, ok
+				}
+				an.Paths(an.PathSpec[tst]{Fn: fn, Init: tst{},
+					Instr: func(s tst, in ssa.Instruction) []tst {
+						switch x := in.(type) {
+						case *ssa.UnOp:
+							if n, ok := loadNo[x]; ok {
+								s.valid |= 1 << n
+							}
+						case *ssa.Store:
+							if isTimerField(x.Addr) {
+								return []tst{{}}
+							}
+						case ssa.CallInstruction:
+							if an.IsMethod(x, "time", "Timer", "Stop") {
+								if n, ok := recvLoad(x); ok && s.valid&(1<<n) != 0 {
+									s.bad = true
+								}
+							}
+							if an.IsMethod(x, "time", "Timer", "Reset") {
+								if n, ok := recvLoad(x); ok && s.valid&(1<<n) != 0 {
+									s.bad = false
+								}
+							}
+						case *ssa.Return:
+							if s.bad && bad == "" {
+								bad = fmt.Sprintf("%s returns at %s with the stopped timer still in the field", name, c.P.Pos(x.Pos()))
+							}
+						}
+						return []tst{s}
+					}})
+				key := "stop-forgets:" + kn(name)
+				v := res[key]
+				if v == nil {
+					v = &verdict{pos: fn.Pos()}
+					res[key] = v
+				}
+				if bad != "" {
+					v.bad = bad
+				}
+			}
+			if !premise {
+				if len(res) > 0 {
+					c.Undecided("premise", token.NoPos, "the cache stops its expiry timer but no arming site guarded by ‘timer field is nil’ was found: the re-arming discipline is not the one this rule knows")
+				} else {
+					c.Unresolved("premise", "no expiry timer field armed under a nil test found in internal/cache")
+				}
+				return
+			}
+			var keys []string
+			for k := range res {
+				keys = append(keys, k)
+			}
+			sort.Strings(keys)
+			for _, k := range keys {
+				if res[k].bad != "" {
+					c.Fail(k, res[k].pos, "%s: Set arms a timer only when the field is nil, so no later entry of this cache ever expires (abandoned upload sessions and their temporary files stay)", res[k].bad)
+				} else {
+					c.Pass(k, res[k].pos, "after Stop() the timer field is cleared or re-armed on every path to a return")
+				}
+			}
+		}})
 }
